@@ -120,6 +120,25 @@ def run(ctx):
             open(w, 'wb').write(data + b'\x01\x02junk')
             jobs.append(('basic', [impl['basic'], '--dialect', name, w], b'', 'stdout'))
             jobs.append(('basic', [impl['basic'], '--dialect', name, p, w], b'', 'stdout'))
+        # listings whose length sits on and around the stdio buffer size: the byte that fills the buffer may be written by any of the
+        # output calls (line number, token text, the newline)
+        def exact_listing(total):
+            out = bytearray()
+            listing = 0
+            n = 10
+            while total - listing > 0:
+                remain = total - listing
+                body_len = min(200, remain - 6)
+                if remain - 6 - body_len in range(1, 7):
+                    body_len -= 8
+                out += bytes([0x0D, n >> 8, n & 255, body_len + 4]) + b'A' * body_len
+                listing += 5 + body_len + 1
+                n += 10
+            return bytes(out) + b'\x0D\xFF'
+        for total in (4095, 4096, 4097, 4098, 8192, 8193, 12289):
+            pth = os.path.join(tmp, 'exact_%d.bbc' % total)
+            open(pth, 'wb').write(exact_listing(total))
+            jobs.append(('basic', [impl['basic'], '--dialect', '6502', '--listo', '0', pth], b'', 'stdout'))
         jobs.append(('basic', [impl['basic'], '--help'], b'', 'stdout'))
         jobs.append(('basic', [impl['basic'], '--dialect=help', os.path.join(tmp, 'p_6502.bbc')], b'', 'stdout'))
         jobs.append(('basic', [impl['basic'], '-D', '-'], b'', 'stdout'))
